@@ -157,6 +157,10 @@ func (c *SrcCore) readAt(p []byte, off int64) (int, error) {
 	if n < len(p) {
 		return n, io.EOF
 	}
+	if c.Del.EOFWithData && off+int64(n) == int64(len(c.Data)) {
+		// legal per io.ReaderAt: a full read that ends at the end of the input may report EOF
+		return n, io.EOF
+	}
 	return n, nil
 }
 
